@@ -119,6 +119,9 @@ pub fn builder_plans(ctx: &mut Ctx, opts: &RunOpts) {
     let mut plans: Vec<Vec<BEntry>> = vec![
         vec![],
         vec![BEntry::Ip("10.1.2.3".parse().unwrap()), BEntry::Ip("::1".parse().unwrap())],
+        vec![BEntry::Ip("::ffff:10.1.2.3".parse().unwrap())],
+        vec![BEntry::Ip4([7, 7, 7, 7]), BEntry::Ip("::ffff:9.9.9.9".parse().unwrap()), BEntry::Udp6(5)],
+        vec![BEntry::Ip("::".parse().unwrap()), BEntry::Ip("0.0.0.0".parse().unwrap())],
         vec![BEntry::Ip4([1, 1, 1, 1]), BEntry::Ip6([2; 16]), BEntry::Tcp4(0), BEntry::Tcp6(65_535), BEntry::Udp4(128), BEntry::Udp6(255)],
         vec![BEntry::Seq(0)],
         vec![BEntry::Seq(u64::MAX), BEntry::Udp4(1)],
